@@ -23,6 +23,10 @@ uint32_t vp_faults_fired = 0;
 uint32_t vp_getters_failed = 0;
 int      vp_record_bytes = 1;
 int      vp_in_tick = 0;
+int      vp_thread_mode = 0;   /* several receive threads: no shared recorder/ledger/clock in the port */
+
+/* default for drivers that do not schedule threads */
+__attribute__((weak)) void lltd_verif_yield(const char *point, void *iface_ctx) { (void)point; (void)iface_ctx; }
 
 /* ---------- ledger: side table pointer -> (size, interface) ---------- */
 #define LT_BITS 20
@@ -127,6 +131,11 @@ uint64_t lltd_port_monotonic_seconds(void) { return vp_now_ms / 1000ULL; }
 uint64_t lltd_port_monotonic_milliseconds(void) { return vp_now_ms; }
 
 void *lltd_port_malloc(size_t size) {
+    if (vp_thread_mode) {
+        void *q = malloc(size ? size : 1);
+        if (q) memset(q, 0xA5, size);
+        return q;
+    }
     vp_alloc_seq++;
     if (vp_fail_alloc_at > 0 &&
         (vp_alloc_seq == vp_fail_alloc_at || (vp_fail_alloc_sticky && vp_alloc_seq > vp_fail_alloc_at))) {
@@ -146,6 +155,7 @@ void *lltd_port_malloc(size_t size) {
 
 void lltd_port_free(void *ptr) {
     if (!ptr) return;
+    if (vp_thread_mode) { free(ptr); return; }
     lt_ent *e = lt_get(ptr);
     if (!e) {
         /* not ours: let the allocator / ASan judge it (invalid or double free) */
@@ -165,6 +175,7 @@ void *lltd_port_memcpy(void *d, const void *s, size_t num) { return memcpy(d, s,
 int lltd_port_memcmp(const void *a, const void *b, size_t num) { return memcmp(a, b, num); }
 
 void lltd_port_sleep_ms(uint32_t ms) {
+    if (vp_thread_mode) return;
     char tmp[64];
     int n = snprintf(tmp, sizeof tmp, "%s{\"k\":\"s\",\"ms\":%u}", ob_items ? "," : "", ms);
     ob_add(tmp, (size_t)n);
@@ -175,6 +186,13 @@ void lltd_port_sleep_ms(uint32_t ms) {
 int lltd_port_send_frame(void *iface_ctx, const void *frame, size_t frame_len) {
     vif *v = (vif *)iface_ctx;
     int rc = 0;
+    if (vp_thread_mode) {
+        /* touch the frame, count it on the interface (owned by the calling thread) */
+        unsigned acc = 0;
+        for (size_t i = 0; i < frame_len; i++) acc += ((const uint8_t *)frame)[i];
+        if (v) v->hiwater += 1 + (long)(acc & 0);
+        return 0;
+    }
     vp_send_seq++;
     if (vp_fail_send_all || (vp_send_seq <= 64 && (vp_fail_send_mask & (1ULL << (vp_send_seq - 1))))) {
         rc = -1;
@@ -351,7 +369,7 @@ int lltd_port_get_wifi_phy_medium(void *iface_ctx, uint32_t *out) {
 /* format the message so that a bad format/argument pair is seen by the sanitizers */
 static void vlog(const char *fmt, va_list ap) {
     char buf[1024];
-    if (!fmt) return;
+    if (!fmt || vp_thread_mode) return;
     vsnprintf(buf, sizeof buf, fmt, ap);
     static int want = -1;
     if (want < 0) want = getenv("VP_LOG") ? 1 : 0;
